@@ -50,6 +50,9 @@ func (a closeAtoms) atom(cond ssa.Value) (string, int, bool) {
 				return "insert-ok", 0, true
 			}
 		}
+		if h := closeWaitHelper(x.Call.StaticCallee()); h != nil {
+			return "close-sent", 0, true
+		}
 	case *ssa.BinOp:
 		if _, isParam := x.X.(*ssa.Parameter); isParam && isNilConst(x.Y) && types.Identical(x.X.Type(), types.Universe.Lookup("error").Type()) {
 			if x.Op == token.EQL {
@@ -263,7 +266,61 @@ func r03_2(c *RC) {
 		}
 	})
 	if budgetIf == nil {
-		c.Bad("bounded-wait", fn.Pos(), "closeWithError has no bounded wait for the close request to be transmitted")
+		// the wait may have been extracted into a helper method
+		var hcall *ssa.Call
+		var h *closeWait
+		instrs(fn, func(_ *ssa.BasicBlock, _ int, in ssa.Instruction) {
+			if cl, ok := in.(*ssa.Call); ok {
+				if w := closeWaitHelper(cl.Call.StaticCallee()); w != nil {
+					hcall, h = cl, w
+				}
+			}
+		})
+		if h == nil {
+			c.Bad("bounded-wait", fn.Pos(), "closeWithError has no bounded wait for the close request to be transmitted")
+			return
+		}
+		c.Info("close_wait_iterations", h.budget)
+		seqOK := false
+		if h.seqParam < len(hcall.Call.Args) {
+			for _, l := range Leaves(hcall.Call.Args[h.seqParam], nil) {
+				if cl, ok := l.(*ssa.Call); ok && calleeName(cl) == "Load" {
+					if f := fieldOrigin(cl.Call.Args[0]); f != nil && f.Name() == "nextSend" {
+						seqOK = true
+					}
+				}
+			}
+		}
+		if seqOK {
+			c.OKH("wait-on-close-seq", fn.Pos(), "the wait helper is given the sequence number assigned to the close request")
+		} else {
+			c.Bad("wait-on-close-seq", fn.Pos(), "the wait helper is not given the close request's sequence number")
+		}
+		// after a successful Insert the discard is reachable only past the wait
+		ex := &Explorer{Fn: fn, Atom: at.atom, Assume: base(nil), Avoid: func(in ssa.Instruction) bool { return in == ssa.Instruction(hcall) }}
+		hit := ex.Reach(nil, isDiscard)
+		switch {
+		case ex.Over:
+			c.Undecided("discard-after-transmission", fn.Pos(), "exploration budget exceeded")
+		case hit != nil:
+			c.Bad("discard-after-transmission", hit.Pos(), "after queueing the close request the send state can be discarded without waiting for its transmission")
+		default:
+			c.OKH("discard-after-transmission", fn.Pos(), "with the close request queued, DeleteAll is reachable only past %s, which reports 'not sent' only after its %d-iteration budget", fnName(h.fn), h.budget)
+		}
+		isOut := func(in ssa.Instruction) bool {
+			cl, ok := in.(*ssa.Call)
+			return ok && calleeName(cl) == "output"
+		}
+		ex2 := &Explorer{Fn: fn, Atom: at.atom, Assume: base(map[string]bool{"close-sent": true})}
+		hit = ex2.Reach(nil, isOut)
+		switch {
+		case ex2.Over:
+			c.Undecided("no-duplicate-direct-write", fn.Pos(), "exploration budget exceeded")
+		case hit != nil:
+			c.Bad("no-duplicate-direct-write", hit.Pos(), "the close request is written directly although the output loop already transmitted it")
+		default:
+			c.OKH("no-duplicate-direct-write", fn.Pos(), "once the wait reported the close request as sent it is not written again")
+		}
 		return
 	}
 	c.Info("close_wait_iterations", budget)
@@ -326,7 +383,7 @@ func r03_4(c *RC) {
 		}
 		for _, s := range p.FieldMethodCalls(f, "DeleteAll") {
 			key := fname + ".DeleteAll@" + fnName(s.Fn)
-			if s.Fn.Name() == "closeWithError" {
+			if ownerName(p, s.Fn) == "closeWithError" {
 				c.OK(key, s.Pos(), "discard at close")
 			} else {
 				c.Bad(key, s.Pos(), "%s.DeleteAll outside closeWithError: data the application wrote successfully is forgotten", fname)
@@ -471,18 +528,35 @@ func r03_6(c *RC) {
 		for _, ce := range conds {
 			switch x := ce.If.Cond.(type) {
 			case *ssa.BinOp:
-				if x.Op == token.GTR {
-					if k, ok := constInt(x.Y); ok && k == 0 && ce.Idx == 1 {
-						if cl, ok := x.X.(*ssa.Call); ok && calleeName(cl) == "Len" && sameField(fieldOrigin(cl.Call.Args[0]), rq) {
-							emptyQ = true
-						}
-						if _, ok := x.X.(*ssa.Call); !ok {
-							// n > 0 where n is the byte count (int-typed local / result)
-							if bt, ok := x.X.Type().Underlying().(*types.Basic); ok && bt.Kind() == types.Int {
-								nothingCopied = true
-							}
-						}
+				// "v is zero" on this edge, in any spelling: v > 0 false, v == 0
+				// true, v < 1 true, v != 0 false, v >= 1 false ...
+				isZeroConst := func(v ssa.Value) bool { k, ok := constInt(v); return ok && k == 0 }
+				isOneConst := func(v ssa.Value) bool { k, ok := constInt(v); return ok && k == 1 }
+				zeroOn := func(pv func(ssa.Value) bool) bool {
+					if ce.Idx == 1 {
+						return cmpForm(x, token.GTR, pv, isZeroConst) || cmpForm(x, token.NEQ, pv, isZeroConst) || cmpForm(x, token.GEQ, pv, isOneConst)
 					}
+					return cmpForm(x, token.LEQ, pv, isZeroConst) || cmpForm(x, token.EQL, pv, isZeroConst) || cmpForm(x, token.LSS, pv, isOneConst)
+				}
+				isQueueLen := func(v ssa.Value) bool {
+					cl, ok := v.(*ssa.Call)
+					return ok && calleeName(cl) == "Len" && sameField(fieldOrigin(cl.Call.Args[0]), rq)
+				}
+				isCount := func(v ssa.Value) bool {
+					if _, isCall := v.(*ssa.Call); isCall {
+						return false
+					}
+					if _, isK := v.(*ssa.Const); isK {
+						return false
+					}
+					bt, ok := v.Type().Underlying().(*types.Basic)
+					return ok && bt.Kind() == types.Int
+				}
+				if zeroOn(isQueueLen) {
+					emptyQ = true
+				}
+				if zeroOn(isCount) {
+					nothingCopied = true
 				}
 				if x.Op == token.EQL && ce.Idx == 0 {
 					if ex, ok := x.X.(*ssa.Extract); ok {
@@ -640,4 +714,86 @@ func r03_7(c *RC) {
 	if n == 0 {
 		c.OK("synthetic-close-is-not-clean", fn.Pos(), "the datagram event loop builds no close request of its own")
 	}
+}
+
+
+// closeWait summarises a helper that performs the bounded wait for the close
+// request: a loop with a constant budget that sleeps, compares lastSend.Load()
+// with one of its parameters, returns true exactly on that comparison's true
+// edge and false only once the budget is exhausted.
+type closeWait struct {
+	fn       *ssa.Function
+	budget   int64
+	seqParam int
+}
+
+func closeWaitHelper(fn *ssa.Function) *closeWait {
+	if fn == nil || fn.Blocks == nil || relPkg(fn) != protoPkg || fn.Signature.Results().Len() != 1 {
+		return nil
+	}
+	if bt, ok := fn.Signature.Results().At(0).Type().Underlying().(*types.Basic); !ok || bt.Kind() != types.Bool {
+		return nil
+	}
+	w := &closeWait{fn: fn, seqParam: -1}
+	var budgetIf *ssa.If
+	var sentCmp *ssa.BinOp
+	instrs(fn, func(b *ssa.BasicBlock, _ int, in ssa.Instruction) {
+		switch x := in.(type) {
+		case *ssa.If:
+			if bo, ok := x.Cond.(*ssa.BinOp); ok && bo.Op == token.LSS && reachesSelf(b) {
+				if k, ok := constInt(bo.Y); ok {
+					if _, isPhi := bo.X.(*ssa.Phi); isPhi {
+						budgetIf, w.budget = x, k
+					}
+				}
+			}
+		case *ssa.BinOp:
+			if cl, ok := x.X.(*ssa.Call); ok && calleeName(cl) == "Load" && (x.Op == token.GEQ || x.Op == token.GTR) {
+				if f := fieldOrigin(cl.Call.Args[0]); f != nil && f.Name() == "lastSend" {
+					for i, prm := range fn.Params {
+						if ssa.Value(prm) == x.Y {
+							w.seqParam = i
+							sentCmp = x
+						}
+					}
+				}
+			}
+		}
+	})
+	if budgetIf == nil || sentCmp == nil {
+		return nil
+	}
+	ok := true
+	instrs(fn, func(b *ssa.BasicBlock, _ int, in ssa.Instruction) {
+		r, isRet := in.(*ssa.Return)
+		if !isRet {
+			return
+		}
+		k, isK := retVal(r, 0).(*ssa.Const)
+		if !isK || k.Value == nil {
+			ok = false
+			return
+		}
+		if k.Value.String() == "true" {
+			on := false
+			for _, ce := range controllingEdges(b) {
+				if ce.If.Cond == ssa.Value(sentCmp) && ce.Idx == 0 {
+					on = true
+				}
+			}
+			if !on {
+				ok = false
+			}
+		} else {
+			// false: only through the exhausted budget
+			reach := blockReach(fn.Blocks[0], func(from *ssa.BasicBlock, i int) bool { return from == budgetIf.Block() && i == 1 })
+			if reach[b] {
+				ok = false
+			}
+		}
+	})
+	if !ok {
+		return nil
+	}
+	return w
 }
